@@ -25,6 +25,7 @@ import (
 
 	"verif/internal/progen"
 	"verif/internal/vf"
+	"verif/internal/yrun"
 )
 
 // Case is a program with one way of cutting it.
@@ -123,7 +124,7 @@ func guarded(i *interp.Interpreter, f func()) (stuck bool) {
 		defer close(done)
 		f()
 	}()
-	last, at := i.VerifOps(), time.Now()
+	last, clock := i.VerifOps(), yrun.NewStallClock()
 	t := time.NewTicker(100 * time.Millisecond)
 	defer t.Stop()
 	for {
@@ -132,8 +133,9 @@ func guarded(i *interp.Interpreter, f func()) (stuck bool) {
 			return false
 		case <-t.C:
 			if n := i.VerifOps(); n != last {
-				last, at = n, time.Now()
-			} else if time.Since(at) > 20*time.Second {
+				last = n
+				clock.Reset()
+			} else if clock.Idle() > 20*time.Second {
 				return true
 			}
 		}
